@@ -73,7 +73,11 @@ type AssertionModel struct {
 
 	HasAttrStmt bool        `json:"hasAttrStmt"`
 	Attrs       []AttrModel `json:"attrs"`
-	AttrFirst   bool        `json:"attrFirst,omitempty"` // AttributeStatement written before AuthnStatement (the schema allows either order)
+	// Advice: an embedded (evidence) assertion inside saml:Advice — part of what the IdP signs, never an
+	// assertion of the Response itself
+	Advice *AssertionModel `json:"advice,omitempty"`
+
+	AttrFirst bool `json:"attrFirst,omitempty"` // AttributeStatement written before AuthnStatement (the schema allows either order)
 
 	HasAuthn            bool `json:"hasAuthn"`
 	SessionIndex        Opt  `json:"sessionIndex"`
@@ -94,6 +98,8 @@ type ResponseModel struct {
 	StatusCode   Opt      `json:"statusCode"`
 	SubCodes     []string `json:"subCodes,omitempty"` // subordinate StatusCode values, each nested in the previous one
 	StatusMsg    Opt      `json:"statusMessage"`
+	// ExtAssertion: an assertion embedded in samlp:Extensions (after the Issuer): not an assertion of the Response
+	ExtAssertion *AssertionModel `json:"extAssertion,omitempty"`
 
 	Assertions []AssertionModel `json:"assertions"`
 }
@@ -228,6 +234,11 @@ func BuildAssertion(a *AssertionModel, ns NSStyle) *etree.Element {
 			}
 		}
 	}
+	if a.Advice != nil {
+		adv := ns.aEl("Advice", true)
+		el.AddChild(adv)
+		adv.AddChild(BuildAssertion(a.Advice, ns))
+	}
 	var authnEl *etree.Element
 	if a.HasAuthn {
 		as := ns.aEl("AuthnStatement", true)
@@ -291,6 +302,11 @@ func BuildResponse(m *ResponseModel, ns NSStyle) *etree.Element {
 	setOpt(root, "Destination", m.Destination)
 	if m.Issuer.Set {
 		root.AddChild(textEl(ns.aEl("Issuer", false), m.Issuer.V))
+	}
+	if m.ExtAssertion != nil {
+		ext := mk(ns.P, "Extensions")
+		root.AddChild(ext)
+		ext.AddChild(BuildAssertion(m.ExtAssertion, ns))
 	}
 	if m.HasStatus {
 		st := mk(ns.P, "Status")
